@@ -44,6 +44,9 @@ def histories(tier):
                                     G.seg([], meta=False, chunks=1, interleaved=il)]))
     out.append(('props', [G.seg([('/', ['NODATA'], props), ("/'g'", ['NODATA'], props), (A, full('Int8', 1), props)]),
                           G.seg([('/', ['NODATA'], props[::-1])])]))
+    tsprops = [['t%d' % i, 'TimeStamp', v.hex()] for i, v in enumerate(G.POOLS['TimeStamp'])]   # includes pre-1904 (negative seconds)
+    out.append(('props', [G.seg([('/', ['NODATA'], tsprops), (A, full('TimeStamp', 2), tsprops)]),
+                          G.seg([(A, ['SAME'], tsprops[::-1])], newlist=False)]))
     for code in G.DAQMX_TYPES:
         size = G.DAQMX_TYPES[code][0]
         sc = [(code, 0, 1, 0, 0), (3, 0, size + 1, 0, 1)]
